@@ -18,6 +18,18 @@ CHECKS = {
    text="Coq theorems over a model of the env/flags/exec converters and of POSIX word splitting and quote removal: for ALL byte strings a single-quoted value reads back as exactly one unaltered word and a double-quoted assignment value as the original string with nothing expanded; env yields every scalar field once and in order; flags and exec scripts read back as their specification. The escape chains are regenerated from src/convert/mod.rs on every run and proved (finite obligation over all 256 bytes) to compute the character-wise escapers the theorems use. Tied to the real converters byte-for-byte on all strings up to length 4 (quick) / 5 (thorough) over the quoting alphabet in six placements, and the outputs are read back by dash and bash",
    note="field, flag and variable names are assumed plain identifiers (the converters do not escape names); the shell model is validated against dash/bash on the same outputs; floats enter as their Display text",
    technique="Coq proof (induction over the string through a quote-state machine) + generated escape chains + exhaustive correspondence + real shells"),
+ "C04": dict(category="exploration",
+   text="partial: totality theorems exist only for the modelled stages (the precedence climber returns a tree for every chain, so the parser's panic! there is unreachable; definitional integer arithmetic and ranges never leave i64; the VM model reaches no Bug outcome on translator output, see C01). The property as a whole is decided by a crash stream: edge-case programs (all operators and ranges over i64 extremes, format/cast/arity mismatches), every shipped .ucg file and fuzz-corpus entry, token-level mutations of shipped and generated programs, random token/UTF-8/byte soup, each through tokenize, parse, type-check, translate, evaluate (+ every converter) and format, each stage under catch_unwind in child processes with time and memory limits",
+   note="partial by nature: panics and stack exhaustion are runtime events inside unmodelled code (parser combinators, type checker, printer, third-party crates); one listed known finding (exponential parse time in nesting depth)",
+   technique="Coq totality theorems for the modelled stages + crash-stream exploration of the real pipeline"),
+ "C10": dict(category="proof",
+   text="Coq theorems on the definitional semantics: every existing binding keeps its value through any further statements (scope extension), a program is its prefix followed by the rest run in the prefix's scope (so prefix bindings are stable and a failing prefix fails the program), rebinding and binding a reserved word are errors, a function body's evaluation depends only on its closure and arguments; C01's compile-correctness theorems carry these to the compiled form. Tied to the implementation by running every statement-boundary prefix of generated programs, targeted scope scenarios (format `item`, parameter/outer name clashes, closures over later names, module bodies, callbacks) against the semantics, and every documented reserved word",
+   note="stated on sem/Sem.v (a model written from the reference); the reserved-word list is read from the docs on every run",
+   technique="Coq proof (induction over the statement list) + prefix-run and scenario correspondence"),
+ "C11": dict(category="proof",
+   text="Coq theorems about a byte-level model of the tokenizer whose recogniser table is regenerated from src/tokenizer/mod.rs on every run: the lexer is total; every byte string written as a literal comes back byte for byte and a literal's value is its body with exactly the documented escapes decoded; every token's line, column and offset are where it really starts and offsets increase; every multi-character operator wins whatever follows; all pairs of vocabulary tokens lex as two tokens glued iff no separator is needed; any two valid layouts (blanks, tabs, LF, CRLF, comments) of a token list lex to that list. Tied to the real tokenizer on all vocabulary pairs with 5 separators, triples, operators followed by every byte, random strings with every escape form, token sequences under two random layouts and every .ucg file - token type, text, line, column and offset must agree",
+   note="positions are in bytes; special recognisers (strings, digits, barewords, comments, whitespace) are modelled by hand; non-UTF-8 input cannot reach the real tokenizer",
+   technique="Coq proof (induction over the input with a position state; finite obligations by vm_compute over the generated table) + exhaustive/seeded correspondence"),
  "C13": dict(category="proof",
    text="Coq state machine of the assertion collector and the `ucg test` driver: the verdict of each file equals its specification (builds and all assertions ok), independent of the other files and their order, exit status non-zero iff some file fails, each assertion logged exactly once; a lemma shows the shared collector of the original code refuted this. Tied to the real binary by running generated test files in every order and comparing verdicts, logs and exit status with the extracted model and with the generator's ground truth",
    note="per-file build abstracted to the list of asserted values; asserts in imported files and directory recursion order not modelled",
